@@ -1,6 +1,9 @@
 package checks
 
 import (
+	"io"
+
+	"github.com/sirupsen/logrus"
 	"encoding/json"
 	"os"
 )
@@ -13,4 +16,11 @@ func readJSON(path string, v interface{}) error {
 		return err
 	}
 	return json.Unmarshal(b, v)
+}
+
+func h1Quiet() *logrus.Logger {
+	l := logrus.New()
+	l.SetOutput(io.Discard)
+	l.SetLevel(logrus.PanicLevel)
+	return l
 }
